@@ -116,8 +116,14 @@ Proof.
   - intros x. rewrite preserved_g', in_map_iff. split; intros (h & A & B); exists h; auto.
 Qed.
 
+Lemma has_heavy_g' n : has_heavy g' (f n) = has_heavy g n.
+Proof.
+  unfold has_heavy. rewrite nbrs_g'. induction (nbrs g n) as [|m l IH]; [reflexivity|].
+  cbn [map existsb]. rewrite is_Hn_g', IH. reflexivity.
+Qed.
+
 Lemma ih_removed_g' n : ih_removed g' pres' (f n) = ih_removed g pres n.
-Proof. unfold ih_removed. rewrite is_Hn_g', mem_preserved_g'. reflexivity. Qed.
+Proof. unfold ih_removed. rewrite is_Hn_g', mem_preserved_g', has_heavy_g'. reflexivity. Qed.
 
 (** C01_implicit_hydrogen_renumber *)
 Theorem implicit_hydrogen_renumber :
@@ -130,7 +136,7 @@ Proof.
   split; [|split].
   - intros n. rewrite L1, L2, label_g'. destruct (label g n) as [a|]; [|reflexivity]. cbn [option_map].
     change (is_H (re (f n) a)) with (is_H a). destruct (is_H a).
-    + rewrite mem_preserved_g'. destruct (mem n (preserved g pres)); reflexivity.
+    + rewrite mem_preserved_g', has_heavy_g'. destruct (mem n (preserved g pres) || negb (has_heavy g n)); reflexivity.
     + rewrite count_h_g', count_pres_g'. reflexivity.
   - intros m Hm. rewrite L1, (label_g'_out m Hm). reflexivity.
   - intros u v. rewrite A1, A2, !ih_removed_g', adj_g'. reflexivity.
